@@ -13,6 +13,7 @@ of their UTF-8 bytes (`-` = empty).
 * `wit <file> <variant>` → `lv=<key:witness:authWitness:targetable,…> cls=<key+key|key…> checks=<bits>`
 * `match <file> <variant> <key> <subject>` → `<levelMatches> <find span of the level pattern>`
 * `jfind <file> <variant> <key,key,…> <subject>` → find span of the joined pattern in that order
+* `graph <key/name/previous,…>` → `graph=<buildPrivGraph does not panic> tree=<singleTree> keyname=<keyEqName>`
 * `merge <9 base fields> <9 variant fields>` → the nine merged fields + ` kind= err=` (sections are
   opaque tokens; only presence matters to `mergeVariant`)
 -/
@@ -96,6 +97,16 @@ def handleC17 : List String → String
     match lookupHex hf hv, (parseList order).mapM unhexS, fromHex hs with
     | some l, some ks, some s => spanS (find (joinedInOrder l.d ks) s)
     | _, _, _ => "bad-op"
+  | ["graph", lv] =>
+    let ls : Option (List Level) := (parseList lv).mapM fun e =>
+      match (e.splitOn "/").mapM unhexS with
+      | some [k, n, p] => some { key := k, name := n, previous := p }
+      | _ => none
+    match ls with
+    | none => "bad-op"
+    | some ls =>
+      let d : Def := { driverType := "network", levels := ls }
+      s!"graph={b2s (graphBuildable d)} tree={b2s (singleTree d)} keyname={b2s (keyEqName d)}"
   | "merge" :: rest =>
     if rest.length != 18 then "bad-op" else
     match parseSections (rest.take 9), parseSections (rest.drop 9) with
